@@ -111,7 +111,7 @@ TOK_RULES = [
  ("gen_unk_words", r"assert_failed", "debug_assert_ne!(groupable, 0): compute_groupable fills 1 and only increments", None),
  ("gen_unk_words", r"Sub\(groupable", "groupable >= 1 (filled with 1, only incremented)", None),
  ("gen_unk_words", r"Add\(arg3,", "start + run/prefix length <= sentence length <= isize::MAX (run lengths never cross the end of the sentence)", None),
- ("scan_entries", r"index\(arg1\.offsets", "base_id < number of categories: both the CharInfo table and offsets (num_categories + 1 elements) are built from the same CharProperty in SystemDictionaryBuilder::build", None),
+ ("scan_entries", r"index\(arg1\.offsets", "base_id < number of categories: both the CharInfo table and offsets (num_categories + 1 elements) are built from the same CharProperty in SystemDictionaryBuilder::build, and a category id is bounded below 18 before it is packed into a CharInfo (a 19th category would spill into the base-id bits)", CATE),
  ("scan_entries", r"Add\(from_u32\(base_id", "category id + 1 <= 18", None),
  ("scan_entries", r"index\(arg1\.entries,next", "loop over offsets[c]..offsets[c+1], prefix sums of the per-category lists, last = entries.len()", None),
  ("scan_entries", r"cast\|usize->u16", "word_id < entries.len() <= 65536", UNKLEN),
